@@ -12,6 +12,7 @@
 -/
 import RedkaModel.Model.Wire.Server
 import RedkaModel.Proofs.Resp
+import RedkaModel.Proofs.WirePanic
 
 namespace Redka.WireProofs
 
@@ -502,9 +503,10 @@ theorem handleX_single_ood (st : ConnState) (db : DB) (now : Int) (req : List By
   rw [hm']
   simp [h1, h2, h3, handleNext, hm', handleSingle, pop_push, oracleAt]
 
-/-- the request is inside what the model covers: no panic (D11), no numeric out-of-domain case,
-nothing the extractor did not recognise -/
-def InModel (o : Wire.Out) : Prop := o.panic = false ∧ o.ood = false ∧ o.unsupported = none
+/-- the request is inside what the model covers: no numeric out-of-domain case, nothing the
+extractor did not recognise (and not the empty request, which redcon never delivers). A panic is
+not excluded here any more: `handleX_noPanic` shows there is none. -/
+def InModel (o : Wire.Out) : Prop := o.ood = false ∧ o.unsupported = none
 
 /-- **One reply per request**, outside MULTI. -/
 theorem handle_one_reply (st : ConnState) (db : DB) (now : Int) (req : List Bytes)
@@ -513,9 +515,9 @@ theorem handle_one_reply (st : ConnState) (db : DB) (now : Int) (req : List Byte
   show wellFormedOne (handleX st db now req []).toks
   cases hp : parse req with
   | error e => simp only [handleX, hp, Out.toks]; exact wf_scalar _ rfl
-  | panic => have := hin.1; simp [handleX, hp] at this
-  | outOfDomain => have := hin.2.1; simp [handleX, hp] at this
-  | unsupported t => have := hin.2.2; simp [handleX, hp] at this
+  | panic => exact absurd hp (parse_ne_panic req)
+  | outOfDomain => have := hin.1; simp [handleX, hp] at this
+  | unsupported t => have := hin.2; simp [handleX, hp] at this
   | ok pc =>
     rw [handleX_single st db now req pc hm hp]
     split
@@ -528,7 +530,7 @@ theorem handle_one_reply (st : ConnState) (db : DB) (now : Int) (req : List Byte
           apply run_ok pc Model.dbRun now db none
           rw [← handleX_single_ood st db now req pc hm hp (by simpa using h1) (by simpa using h2)
             (by simpa using h3)]
-          exact hin.2.1
+          exact hin.1
 
 /-- **A malformed invocation is answered with an error and changes nothing**: when
 `command.Parse` fails, the handler chain writes exactly one error token and leaves the tables and
@@ -557,6 +559,16 @@ theorem handleX_panic (st : ConnState) (db : DB) (now : Int) (req : List Bytes)
       | (simp only [handleNext, handleSingle, handleMulti, hpp] at h
          repeat' split at h
          all_goals first | (cases h; done) | (simp_all [ConnState.push]; done))
+
+/-- **No request makes the handler chain panic**: the parser never does (`parse_ne_panic`), and
+the one modelled panic of the chain itself — `handleSingle` calling `Run` on the `nil` command that
+`state.pop()` returns for an empty queue — is unreachable, because `parse` has just pushed the
+command (`pop_push`) and `EXEC` inside MULTI goes to `handleMulti`. -/
+theorem handleX_noPanic (st : ConnState) (db : DB) (now : Int) (req : List Bytes) :
+    (handleX st db now req []).panic = false := by
+  cases h : (handleX st db now req []).panic with
+  | false => rfl
+  | true => exact absurd (handleX_panic st db now req h) (parse_ne_panic req)
 
 /-! ### EXEC -/
 
